@@ -20,6 +20,7 @@ def check_case(rep, case, name):
     for route, f in rs.items():
         if case.get('route') and route != case['route']: continue
         for x in case['rs']:
+            if x < min_r(('leaf', nm, params)): continue
             want = float(f0(x))
             try: got = f(x)
             except Exception as e: rep.dev(name, dict(case, route=route, rs=[x]), 'exception %r' % (e,), want); return
